@@ -193,7 +193,12 @@ class BasicDBusProtocol(protocol.Protocol):
                         log.msg('DBus Authentication failed: ' + str(e))
                         self.transport.loseConnection()
             else:
-                if len(self._buffer) > self.MAX_AUTH_LENGTH:
+                # what is waiting may end in the first half of the
+                # delimiter: that byte is not part of the line
+                pending = len(self._buffer)
+                if self._buffer.endswith(self.authDelimiter[:1]):
+                    pending -= 1
+                if pending > self.MAX_AUTH_LENGTH:
                     return self.authMessageLengthExceeded(self._buffer)
 
     def fileDescriptorReceived(self, fd):
